@@ -636,6 +636,13 @@ def run_plain(sc):
                 mids.append(np.array(system.sol(system.t[i] + (system.t[i + 1] - system.t[i]) * 0.5), copy=True))
         except Exception as e:   # noqa
             mids = [np.array([np.nan])]
-    return {"t": np.array(system.t, copy=True), "y": np.array(system.y, copy=True), "ok": err is None, "err": err, "mids": mids,
+    probes = []
+    if err is None and system.sol is not None and len(system.t) > 1:
+        try:
+            a_, b_ = system.t[0], system.t[-1]
+            probes = [np.array(system.sol(a_ + (b_ - a_) * np.asarray(k / 16.0, dtype=dt)), copy=True) for k in range(1, 16)]
+        except Exception as e:   # noqa
+            probes = [np.array([np.nan])]
+    return {"t": np.array(system.t, copy=True), "y": np.array(system.y, copy=True), "ok": err is None, "err": err, "mids": mids, "probes": probes,
             "nfev": system.nfev, "events": [(e.t, np.array(e.y, copy=True)) for e in system.events], "dt": system.dt,
             "status": system.integration_status, "system": system}
